@@ -128,6 +128,7 @@ func svars(height uint32) []svar {
 		{Name: "with-invoker", Valid: true, Opt: irworld.NROpt{Invoker: true}},
 		{Name: "alphabet-witness-already-signed", Valid: true, Opt: irworld.NROpt{SignedAlphabet: true}},
 		{Name: "wrong-alphabet-signer", Opt: irworld.NROpt{WrongAlphabet: true}},
+		{Name: "alphabet-witness-with-other-verification-script", Opt: irworld.NROpt{WrongAlphaWit: true}},
 		{Name: "proxy-witness-not-empty", Opt: irworld.NROpt{ProxyWitness: true}},
 		{Name: "invoker-witness-empty", Opt: irworld.NROpt{Invoker: true, EmptyInvokerW: true}},
 		{Name: "notary-placeholder-has-verification", Opt: irworld.NROpt{BadPlaceholder: true}},
@@ -344,7 +345,7 @@ func main() {
 		}
 		return
 	}())
-	r.Rule("scripts = every sequence of 1..3 calls over the 17-call menu; x 22 structure variants (for 3-call scripts whose first call is not co-signable alone only the 2 plain valid structures); non-trivial = co-signed, or structure valid and every call co-signable alone")
+	r.Rule("scripts = every sequence of 1..3 calls over the 17-call menu; x 23 structure variants (for 3-call scripts whose first call is not co-signable alone only the 2 plain valid structures); non-trivial = co-signed, or structure valid and every call co-signable alone")
 	r.Exhaustive(exhaustive)
 	r.Assume("reference for 'validated by its handler' = the same call delivered alone in a canonical request to a server that already knows the container being created is co-signed (checked against the menu's intended classes at start)",
 		"oracle is one-directional ('only if')", "alphabet-member state; every chain mutation succeeds; chain says every script is valid (IsValidScript)")
